@@ -1,76 +1,293 @@
 import PnaVerif.Lemmas.CliUpdate
 /-!
 # C11 — append and update never lose or duplicate entries
-Model: `Cli.appendOp`, `Cli.updateOp` (the scan over the old archive with the pending-target
-list transcribed from update.rs after the `fix:`), `Cli.deleteOp`, on ordered entry lists.
-For every archive, every walker result, every exclusion set and every time filter:
+Model: `Cli.appendOp`, `Cli.updateOp` (the scan over the old archive transcribed from update.rs
+after the two `fix:` commits: the walker's result is de-duplicated by entry name, and every later
+archived entry of a re-created name is left out), `Cli.deleteOp`, on ordered entry lists.
+
+For EVERY archive (a path may be archived several times — each `append` of an archived path adds an
+entry), EVERY walker result (overlapping arguments yield a path several times), every exclusion
+set and every time filter — there is no uniqueness hypothesis anywhere:
 * `append_keeps_prefix` — after `append` the archive is all previous entries, unchanged, followed
   by the new ones;
 * `update_keeps_untargeted` — every entry not named for update is still present, unchanged, in
   the same relative order (and nothing else with such a name appears);
-* `update_each_target_once` / `update_current_contents` — every named path that exists on disk is
-  present exactly once, with its current contents unless it was excluded or filtered out by the
-  time condition (then the old entry is kept: `update_filtered_keeps_old`);
-* `history_invariant` — name uniqueness is preserved by every operation, so the two statements
-  above apply after any interleaving of create / append (of new names) / update / delete.
-The uniqueness hypothesis is needed: on an archive that already holds a name twice `update`
-re-creates it once and leaves the second stale copy (`Lemmas/CliUpdate.lean`, examples) — such
-archives are produced only by appending a path that is already archived.
+* `update_each_target_once` / `update_current_contents` — every named path that exists on disk and
+  whose first archived entry (if any) is not excluded / filtered out by the time condition is
+  present exactly once, as the first target of that name (its current contents);
+* `update_filtered_keeps_old` — otherwise all archived entries of that name are kept, unchanged;
+* `update_invents_nothing`;
+* `update_idempotent_*` — a second identical update yields the same entries; the same list when
+  the targets agree on being re-created (`update_idempotent_exact`), and in general the list
+  described by `update_twice_exact`;
+* `history_update_exact` — the statements hold for the archive reached by ANY sequence of
+  operations: no invariant on histories is needed.
+`legacy_*` are the two concrete inputs on which the code before the repairs was wrong.
 -/
 namespace Pna.C11
 open Pna Pna.Cli
+
+/-! ## (1) append -/
 
 theorem append_keeps_prefix (a ts : List UEntry) :
     appendOp a ts = a ++ ts ∧ (appendOp a ts).take a.length = a ∧ (appendOp a ts).drop a.length = ts :=
   append_spec a ts
 
+example : appendOp [⟨[1],[10]⟩, ⟨[1],[11]⟩] [⟨[1],[12]⟩] = [⟨[1],[10]⟩, ⟨[1],[11]⟩, ⟨[1],[12]⟩] := by
+  decide
+
+/-! ## (2) update leaves the untargeted entries alone -/
+
 theorem update_keeps_untargeted (excl : Bytes → Bool) (need : UEntry → Bool) (a ts : List UEntry) :
-    (updateOp excl need a ts).filter (fun e => !(names ts).contains e.name) = a.filter (fun e => !(names ts).contains e.name) :=
+    (updateOp excl need a ts).filter (fun e => !(names ts).contains e.name) =
+      a.filter (fun e => !(names ts).contains e.name) :=
   update_untouched excl need a ts
 
+/-- duplicates on both sides; the untargeted `[5]` (twice) and `[6]` stay, in order -/
+example : (updateOp (fun _ => false) (fun _ => true)
+      [⟨[5],[50]⟩, ⟨[2],[1]⟩, ⟨[5],[51]⟩, ⟨[2],[2]⟩, ⟨[6],[60]⟩] [⟨[2],[21]⟩, ⟨[2],[22]⟩]).filter
+        (fun e => !(names [⟨[2],[21]⟩, ⟨[2],[22]⟩]).contains e.name) =
+    [⟨[5],[50]⟩, ⟨[5],[51]⟩, ⟨[6],[60]⟩] := by decide
+
+/-! ## (3), (4) every target that is to be written is there exactly once, with its current contents -/
+
+/-- For every target `t` such that the first archived entry of its name (if any) is not excluded
+    and needs the update, the result holds exactly one entry of that name — however often the
+    archive and the walker result hold that name. -/
 theorem update_each_target_once (excl : Bytes → Bool) (need : UEntry → Bool) (a ts : List UEntry)
-    (ha : (names a).Nodup) (ht : (names ts).Nodup) (t : UEntry) (h : t ∈ ts) :
+    (t : UEntry) (h : t ∈ ts)
+    (hcur : ∀ e, a.find? (·.name == t.name) = some e → (excl e.name = false ∧ need e = true)) :
     ((updateOp excl need a ts).filter (fun e => e.name == t.name)).length = 1 :=
-  update_target_once excl need a ts ha ht t h
+  update_target_once excl need a ts t h hcur
 
+/-- … and that entry is the FIRST target of that name (`create_entry` reads the same file for
+    every occurrence of a path in the walker's result). -/
 theorem update_current_contents (excl : Bytes → Bool) (need : UEntry → Bool) (a ts : List UEntry)
-    (ha : (names a).Nodup) (ht : (names ts).Nodup) (t : UEntry) (h : t ∈ ts)
-    (hcur : ∀ e ∈ a, e.name = t.name → (excl e.name = false ∧ need e = true)) : t ∈ updateOp excl need a ts :=
-  update_target_current excl need a ts ha ht t h hcur
+    (t : UEntry) (h : t ∈ ts)
+    (hcur : ∀ e, a.find? (·.name == t.name) = some e → (excl e.name = false ∧ need e = true)) :
+    ∃ t0, ts.find? (·.name == t.name) = some t0 ∧ t0 ∈ updateOp excl need a ts ∧
+      (updateOp excl need a ts).filter (fun e => e.name == t.name) = [t0] := by
+  rcases exists_first_of_mem h with ⟨t0, h0⟩
+  exact ⟨t0, h0, update_target_first excl need a ts t t0 h0 hcur,
+    update_target_exact excl need a ts t.name t0 h0 hcur⟩
 
+/-- with a walker result of unique names this is the old statement: the target itself is there -/
+theorem update_current_contents_nodup (excl : Bytes → Bool) (need : UEntry → Bool)
+    (a ts : List UEntry) (ht : (names ts).Nodup) (t : UEntry) (h : t ∈ ts)
+    (hcur : ∀ e, a.find? (·.name == t.name) = some e → (excl e.name = false ∧ need e = true)) :
+    t ∈ updateOp excl need a ts :=
+  update_target_current excl need a ts ht t h hcur
+
+/-- non-vacuity of (3)/(4): the name `[2]` three times in the archive (first one outdated), twice
+    in the walker result; the hypothesis holds for the second occurrence `⟨[2],[22]⟩` too -/
+example :
+    let a : List UEntry := [⟨[2],[1]⟩, ⟨[5],[50]⟩, ⟨[2],[2]⟩, ⟨[2],[3]⟩]
+    let ts : List UEntry := [⟨[2],[21]⟩, ⟨[4],[40]⟩, ⟨[2],[22]⟩]
+    (⟨[2],[22]⟩ : UEntry) ∈ ts ∧
+    (∀ e, a.find? (·.name == [2]) = some e → ((fun _ => false) e.name = false ∧ (fun e : UEntry => e.body != [3]) e = true)) ∧
+    ts.find? (·.name == [2]) = some ⟨[2],[21]⟩ ∧
+    updateOp (fun _ => false) (fun e => e.body != [3]) a ts = [⟨[5],[50]⟩, ⟨[2],[21]⟩, ⟨[4],[40]⟩] := by
+  refine ⟨by decide, ?_, by decide, by decide⟩
+  intro e he
+  obtain rfl : (⟨[2],[1]⟩ : UEntry) = e := by simpa using he
+  decide
+
+example : ((updateOp (fun _ => false) (fun e => e.body != [3])
+      [⟨[2],[1]⟩, ⟨[5],[50]⟩, ⟨[2],[2]⟩, ⟨[2],[3]⟩] [⟨[2],[21]⟩, ⟨[4],[40]⟩, ⟨[2],[22]⟩]).filter
+        (fun e => e.name == [2])).length = 1 :=
+  update_each_target_once _ _ _ _ ⟨[2],[22]⟩ (by decide)
+    (fun e he => by obtain rfl : (⟨[2],[1]⟩ : UEntry) = e := by simpa using he
+                    decide)
+
+/-! ## (5) excluded / up-to-date names keep all their archived entries -/
+
+/-- If the first archived entry `e` of a name is excluded or does not need the update, the
+    entries of that name are all kept, unchanged and in order, and the target (if the name is one)
+    is not written.  (`he` says that `e` is the first archived entry of its name.) -/
 theorem update_filtered_keeps_old (excl : Bytes → Bool) (need : UEntry → Bool) (a ts : List UEntry)
-    (ha : (names a).Nodup) (e : UEntry) (he : e ∈ a) (hin : (names ts).contains e.name = true)
-    (hk : ¬ (excl e.name = false ∧ need e = true)) : e ∈ updateOp excl need a ts :=
-  update_target_kept excl need a ts ha e he hin hk
+    (e : UEntry) (he : a.find? (·.name == e.name) = some e)
+    (hk : ¬ (excl e.name = false ∧ need e = true)) :
+    (updateOp excl need a ts).filter (fun x => x.name == e.name) =
+      a.filter (fun x => x.name == e.name) :=
+  update_target_kept excl need a ts e he hk
+
+/-- non-vacuity: `[2]` three times in the archive and excluded, twice among the targets -/
+example :
+    let a : List UEntry := [⟨[2],[1]⟩, ⟨[5],[50]⟩, ⟨[2],[2]⟩, ⟨[2],[3]⟩]
+    let ts : List UEntry := [⟨[2],[21]⟩, ⟨[4],[40]⟩, ⟨[2],[22]⟩]
+    a.find? (·.name == [2]) = some ⟨[2],[1]⟩ ∧
+    ¬ ((fun n => n == [2]) ([2] : Bytes) = false ∧ (fun _ : UEntry => true) ⟨[2],[1]⟩ = true) ∧
+    updateOp (fun n => n == [2]) (fun _ => true) a ts =
+      [⟨[2],[1]⟩, ⟨[5],[50]⟩, ⟨[2],[2]⟩, ⟨[2],[3]⟩, ⟨[4],[40]⟩] := by decide
+
+example : (updateOp (fun n => n == [2]) (fun _ => true)
+      [⟨[2],[1]⟩, ⟨[5],[50]⟩, ⟨[2],[2]⟩, ⟨[2],[3]⟩] [⟨[2],[21]⟩, ⟨[4],[40]⟩, ⟨[2],[22]⟩]).filter
+        (fun x => x.name == [2]) = [⟨[2],[1]⟩, ⟨[2],[2]⟩, ⟨[2],[3]⟩] :=
+  update_filtered_keeps_old _ _ _ _ ⟨[2],[1]⟩ (by decide) (by decide)
+
+/-- the same with the time filter: the first archived `[2]` is up to date, a later one is not -/
+example : updateOp (fun _ => false) (fun e => e.body != [1])
+      [⟨[2],[1]⟩, ⟨[2],[2]⟩] [⟨[2],[21]⟩, ⟨[2],[22]⟩] = [⟨[2],[1]⟩, ⟨[2],[2]⟩] := by decide
+
+/-! ## (6) nothing is invented -/
 
 theorem update_invents_nothing (excl : Bytes → Bool) (need : UEntry → Bool) (a ts : List UEntry) :
     ∀ e ∈ updateOp excl need a ts, e ∈ a ∨ e ∈ ts := update_sound excl need a ts
 
-/-- operations of a history -/
+example : ∀ e ∈ updateOp (fun _ => false) (fun _ => true) [⟨[2],[1]⟩, ⟨[3],[30]⟩, ⟨[2],[2]⟩]
+      [⟨[2],[21]⟩, ⟨[2],[22]⟩],
+    e ∈ [(⟨[2],[1]⟩ : UEntry), ⟨[3],[30]⟩, ⟨[2],[2]⟩] ∨ e ∈ [(⟨[2],[21]⟩ : UEntry), ⟨[2],[22]⟩] := by
+  decide
+
+/-- a name is in the result iff it is archived or a target: nothing is lost either -/
+theorem update_names (excl : Bytes → Bool) (need : UEntry → Bool) (a ts : List UEntry) (n : Bytes) :
+    n ∈ names (updateOp excl need a ts) ↔ n ∈ names a ∨ n ∈ names ts :=
+  mem_names_update excl need a ts n
+
+example : names (updateOp (fun n => n == [2]) (fun _ => true) [⟨[2],[1]⟩, ⟨[3],[30]⟩, ⟨[2],[2]⟩]
+    [⟨[4],[40]⟩, ⟨[2],[22]⟩, ⟨[4],[41]⟩]) = [[2], [3], [2], [4]] := by decide
+
+/-! ## (7) a second identical update -/
+
+/-- the entries after a second identical update are those after the first (as a multiset) -/
+theorem update_idempotent_entries (excl : Bytes → Bool) (need : UEntry → Bool) (a ts : List UEntry) :
+    (updateOp excl need (updateOp excl need a ts) ts).Perm (updateOp excl need a ts) :=
+  update_twice_perm excl need a ts
+
+/-- … under every name the same entries in the same order … -/
+theorem update_idempotent_by_name (excl : Bytes → Bool) (need : UEntry → Bool) (a ts : List UEntry)
+    (n : Bytes) :
+    (updateOp excl need (updateOp excl need a ts) ts).filter (fun e => e.name == n) =
+      (updateOp excl need a ts).filter (fun e => e.name == n) :=
+  update_twice_withName excl need a ts n
+
+/-- … hence the same names, each as often as before. -/
+theorem update_idempotent_names (excl : Bytes → Bool) (need : UEntry → Bool) (a ts : List UEntry) :
+    (names (updateOp excl need (updateOp excl need a ts) ts)).Perm
+      (names (updateOp excl need a ts)) :=
+  (update_twice_perm excl need a ts).map _
+
+/-- every target that was written by the first update is still there exactly once, unchanged -/
+theorem update_idempotent_target (excl : Bytes → Bool) (need : UEntry → Bool) (a ts : List UEntry)
+    (t : UEntry) (h : t ∈ ts)
+    (hcur : ∀ e, a.find? (·.name == t.name) = some e → (excl e.name = false ∧ need e = true)) :
+    ∃ t0, ts.find? (·.name == t.name) = some t0 ∧
+      (updateOp excl need (updateOp excl need a ts) ts).filter (fun e => e.name == t.name) = [t0] := by
+  rcases update_current_contents excl need a ts t h hcur with ⟨t0, h0, _, h1⟩
+  exact ⟨t0, h0, (update_idempotent_by_name excl need a ts t.name).trans h1⟩
+
+/-- **Full idempotence** needs one hypothesis: the targets agree on "not excluded and in need of
+    the update" (all of them, e.g. no `--exclude` and no time filter; or none of them, e.g. a time
+    filter that finds every freshly written entry up to date). -/
+theorem update_idempotent_exact (excl : Bytes → Bool) (need : UEntry → Bool) (a ts : List UEntry)
+    (h : ∀ t ∈ ts, ∀ u ∈ ts, (!excl t.name && need t) = (!excl u.name && need u)) :
+    updateOp excl need (updateOp excl need a ts) ts = updateOp excl need a ts :=
+  update_idempotent excl need a ts h
+
+theorem update_idempotent_default (a ts : List UEntry) :
+    updateOp (fun _ => false) (fun _ => true) (updateOp (fun _ => false) (fun _ => true) a ts) ts =
+      updateOp (fun _ => false) (fun _ => true) a ts :=
+  Cli.update_idempotent_default a ts
+
+/-- without the hypothesis, exactly this happens: the first result is `K ++ Q` with `Q` made of
+    targets; the second run moves the entries of `Q` that are re-created again behind the others. -/
+theorem update_twice_exact (excl : Bytes → Bool) (need : UEntry → Bool) (a ts : List UEntry) :
+    ∃ K Q, updateOp excl need a ts = K ++ Q ∧ (∀ q ∈ Q, q ∈ ts) ∧
+      updateOp excl need (updateOp excl need a ts) ts =
+        K ++ Q.filter (fun q => !(!excl q.name && need q)) ++ Q.filter (fun q => !excl q.name && need q) :=
+  update_twice_shape excl need a ts
+
+/-- non-vacuity (duplicates on both sides, excluded name, new names): twice = once -/
+example : updateOp (fun n => n == [3]) (fun _ => true)
+      (updateOp (fun n => n == [3]) (fun _ => true)
+        [⟨[2],[1]⟩, ⟨[3],[30]⟩, ⟨[2],[2]⟩, ⟨[3],[31]⟩] [⟨[2],[21]⟩, ⟨[3],[32]⟩, ⟨[2],[22]⟩, ⟨[4],[40]⟩])
+      [⟨[2],[21]⟩, ⟨[3],[32]⟩, ⟨[2],[22]⟩, ⟨[4],[40]⟩] =
+    [⟨[3],[30]⟩, ⟨[3],[31]⟩, ⟨[2],[21]⟩, ⟨[4],[40]⟩] ∧
+    updateOp (fun n => n == [3]) (fun _ => true)
+        [⟨[2],[1]⟩, ⟨[3],[30]⟩, ⟨[2],[2]⟩, ⟨[3],[31]⟩] [⟨[2],[21]⟩, ⟨[3],[32]⟩, ⟨[2],[22]⟩, ⟨[4],[40]⟩] =
+    [⟨[3],[30]⟩, ⟨[3],[31]⟩, ⟨[2],[21]⟩, ⟨[4],[40]⟩] := by decide
+
+/-- the hypothesis of `update_idempotent_exact` cannot be dropped: a NEW path that is excluded
+    stays in place while the one before it is re-created again and moves behind it -/
+example : ¬ ∀ (excl : Bytes → Bool) (need : UEntry → Bool) (a ts : List UEntry),
+    updateOp excl need (updateOp excl need a ts) ts = updateOp excl need a ts := by
+  intro h
+  exact absurd (h (fun n => n == [2]) (fun _ => true) [] [⟨[1],[10]⟩, ⟨[2],[20]⟩]) (by decide)
+
+/-! ## (8) histories: any interleaving of append / update / delete -/
+
+/-- operations of a history (creation is the initial archive); the exclusion set and the time
+    filter of an update are arbitrary predicates -/
 inductive Op where
   | append (ts : List UEntry)
-  | update (excl : List Bytes) (need : List Bytes) (ts : List UEntry)
-  | delete (sel : List Bytes)
+  | update (excl : Bytes → Bool) (need : UEntry → Bool) (ts : List UEntry)
+  | delete (sel : Bytes → Bool)
 
 def step (a : List UEntry) : Op → List UEntry
   | .append ts => appendOp a ts
-  | .update excl need ts => updateOp (fun n => excl.contains n) (fun e => need.contains e.name) a ts
-  | .delete sel => deleteOp (fun n => sel.contains n) a
+  | .update excl need ts => updateOp excl need a ts
+  | .delete sel => deleteOp sel a
 
-/-- an operation is admissible when the walker's result has unique names and an append adds only
-    names that are not archived yet -/
+/-- **History theorem**: let `b` be the archive reached from ANY archive `a` by ANY sequence of
+    operations — appends of already archived paths, updates with overlapping arguments, deletes —
+    without any admissibility condition.  For every target whose first archived entry in `b` (if
+    any) is not excluded / filtered out, the archive after `update` holds exactly one entry of that
+    name, and it is the first target of that name. -/
+theorem history_update_exact (ops : List Op) (a : List UEntry) (excl : Bytes → Bool)
+    (need : UEntry → Bool) (ts : List UEntry) (t : UEntry) (h : t ∈ ts)
+    (hcur : ∀ e, (ops.foldl step a).find? (·.name == t.name) = some e →
+      (excl e.name = false ∧ need e = true)) :
+    ∃ t0, ts.find? (·.name == t.name) = some t0 ∧
+      t0 ∈ step (ops.foldl step a) (.update excl need ts) ∧
+      (step (ops.foldl step a) (.update excl need ts)).filter (fun e => e.name == t.name) = [t0] ∧
+      ((step (ops.foldl step a) (.update excl need ts)).filter (fun e => e.name == t.name)).length = 1 := by
+  rcases update_current_contents excl need (ops.foldl step a) ts t h hcur with ⟨t0, h0, h1, h2⟩
+  exact ⟨t0, h0, h1, h2, by rw [show step (ops.foldl step a) (.update excl need ts) =
+    updateOp excl need (ops.foldl step a) ts from rfl, h2]; rfl⟩
+
+/-- … every entry not named for update is still present and unchanged, after any history … -/
+theorem history_update_untargeted (ops : List Op) (a : List UEntry) (excl : Bytes → Bool)
+    (need : UEntry → Bool) (ts : List UEntry) :
+    (step (ops.foldl step a) (.update excl need ts)).filter (fun e => !(names ts).contains e.name) =
+      (ops.foldl step a).filter (fun e => !(names ts).contains e.name) :=
+  update_keeps_untargeted excl need _ ts
+
+/-- … and append keeps whatever the history has produced as a prefix. -/
+theorem history_append_prefix (ops : List Op) (a ts : List UEntry) :
+    step (ops.foldl step a) (.append ts) = ops.foldl step a ++ ts :=
+  rfl
+
+/-- non-vacuity: create `[q:v1, z]`, append `q:v2` (already archived), update with an overlapping
+    walker result, delete `z`, append `q:v4` and `q:v5` — then update `[q:v6, q:v6, f]`: one `q`,
+    the current one; the hypothesis of `history_update_exact` holds for `q` -/
+example :
+    let ops : List Op := [.append [⟨[113],[2]⟩], .update (fun _ => false) (fun _ => true)
+      [⟨[113],[3]⟩, ⟨[113],[3]⟩], .delete (fun n => n == [122]), .append [⟨[113],[4]⟩, ⟨[113],[5]⟩]]
+    let b := ops.foldl step [⟨[113],[1]⟩, ⟨[122],[9]⟩]
+    b = [⟨[113],[3]⟩, ⟨[113],[4]⟩, ⟨[113],[5]⟩] ∧
+    (∀ e, b.find? (·.name == [113]) = some e →
+      ((fun _ => false) e.name = false ∧ (fun _ : UEntry => true) e = true)) ∧
+    step b (.update (fun _ => false) (fun _ => true) [⟨[113],[6]⟩, ⟨[113],[6]⟩, ⟨[102],[7]⟩]) =
+      [⟨[113],[6]⟩, ⟨[102],[7]⟩] := by
+  refine ⟨by decide, fun e _ => ⟨rfl, rfl⟩, by decide⟩
+
+/-! ### name uniqueness, where it holds, is still preserved (secondary) -/
+
+/-- an `append` is *fresh* when it adds unique names that are not archived yet; `update` and
+    `delete` need no condition (the walker result of an update may repeat names) -/
 def Op.ok (a : List UEntry) : Op → Prop
   | .append ts => (names ts).Nodup ∧ ∀ n ∈ names ts, n ∉ names a
-  | .update _ _ ts => (names ts).Nodup
+  | .update _ _ _ => True
   | .delete _ => True
 
-theorem step_invariant (a : List UEntry) (op : Op) (ha : (names a).Nodup) (hop : op.ok a) : (names (step a op)).Nodup := by
+theorem step_invariant (a : List UEntry) (op : Op) (ha : (names a).Nodup) (hop : op.ok a) :
+    (names (step a op)).Nodup := by
   cases op with
   | append ts => exact append_nodup a ts ha hop.1 hop.2
-  | update excl need ts => exact update_nodup _ _ a ts ha hop
-  | delete sel => exact delete_nodup _ a ha
+  | update excl need ts => exact update_nodup excl need a ts ha
+  | delete sel => exact delete_nodup sel a ha
 
-/-- **History invariant**: after any admissible sequence of operations names stay unique. -/
+/-- after any sequence of operations whose appends are fresh, names stay unique -/
 theorem history_invariant (ops : List Op) (a : List UEntry) (ha : (names a).Nodup)
     (hops : ∀ (pre : List Op) (op : Op) (post : List Op), ops = pre ++ op :: post → op.ok (pre.foldl step a)) :
     (names (ops.foldl step a)).Nodup := by
@@ -84,7 +301,42 @@ theorem history_invariant (ops : List Op) (a : List UEntry) (ha : (names a).Nodu
       have := hops (op :: pre) op' post (by simp [h])
       simpa using this
 
-example : updateOp (fun _ => false) (fun _ => true) [⟨[1],[10]⟩, ⟨[2],[20]⟩, ⟨[3],[30]⟩] [⟨[2],[21]⟩, ⟨[4],[40]⟩]
-    = [⟨[1],[10]⟩, ⟨[3],[30]⟩, ⟨[2],[21]⟩, ⟨[4],[40]⟩] := by decide
+example : (names (step [⟨[1],[10]⟩, ⟨[2],[20]⟩]
+    (.update (fun _ => false) (fun _ => true) [⟨[2],[21]⟩, ⟨[3],[30]⟩, ⟨[2],[22]⟩, ⟨[3],[31]⟩]))).Nodup ∧
+    (names [(⟨[1],[10]⟩ : UEntry), ⟨[2],[20]⟩]).Nodup := by decide
+
+/-! ## (9) the code before the repairs: the two concrete failures -/
+
+/-- create `[q:v1]`, append `[q:v2]`, update `[q:v3]`: the legacy update re-creates the first
+    entry and carries the stale second one over — two entries named `q` -/
+theorem legacy_update_keeps_stale_entry :
+    updateOpLegacy (fun _ => false) (fun _ => true)
+        (appendOp [⟨[113], [1]⟩] [⟨[113], [2]⟩]) [⟨[113], [3]⟩] =
+      [⟨[113], [2]⟩, ⟨[113], [3]⟩] ∧
+    ((updateOpLegacy (fun _ => false) (fun _ => true)
+        (appendOp [⟨[113], [1]⟩] [⟨[113], [2]⟩]) [⟨[113], [3]⟩]).filter
+          (fun e => e.name == [113])).length = 2 ∧
+    updateOp (fun _ => false) (fun _ => true)
+        (appendOp [⟨[113], [1]⟩] [⟨[113], [2]⟩]) [⟨[113], [3]⟩] = [⟨[113], [3]⟩] := by decide
+
+/-- update of `[z]` with the walker result `[f, f]`: the legacy update adds `f` twice -/
+theorem legacy_update_adds_target_twice :
+    updateOpLegacy (fun _ => false) (fun _ => true) [⟨[122], [1]⟩] [⟨[102], [7]⟩, ⟨[102], [7]⟩] =
+      [⟨[122], [1]⟩, ⟨[102], [7]⟩, ⟨[102], [7]⟩] ∧
+    ((updateOpLegacy (fun _ => false) (fun _ => true) [⟨[122], [1]⟩]
+        [⟨[102], [7]⟩, ⟨[102], [7]⟩]).filter (fun e => e.name == [102])).length = 2 ∧
+    updateOp (fun _ => false) (fun _ => true) [⟨[122], [1]⟩] [⟨[102], [7]⟩, ⟨[102], [7]⟩] =
+      [⟨[122], [1]⟩, ⟨[102], [7]⟩] := by decide
+
+/-- on the inputs the old theorems covered (unique names on both sides) the repairs change
+    nothing -/
+theorem legacy_agrees_on_unique_names (excl : Bytes → Bool) (need : UEntry → Bool)
+    (a ts : List UEntry) (ha : (names a).Nodup) (ht : (names ts).Nodup) :
+    updateOp excl need a ts = updateOpLegacy excl need a ts :=
+  updateOp_eq_legacy excl need a ts ha ht
+
+example : (names [(⟨[1],[10]⟩ : UEntry), ⟨[2],[20]⟩]).Nodup ∧ (names [(⟨[2],[21]⟩ : UEntry), ⟨[3],[30]⟩]).Nodup ∧
+    updateOpLegacy (fun _ => false) (fun _ => true) [⟨[1],[10]⟩, ⟨[2],[20]⟩] [⟨[2],[21]⟩, ⟨[3],[30]⟩] =
+      [⟨[1],[10]⟩, ⟨[2],[21]⟩, ⟨[3],[30]⟩] := by decide
 
 end Pna.C11
